@@ -91,6 +91,7 @@ def compile_cli(
         cmd.append(lang)
     cmd.append(os.path.join(srcdir, filename))
     if outdir:
+        os.makedirs(outdir, exist_ok=True)  # the CLI does not create it
         cmd.append(outdir)
     cmd += list(flags)
     env = {"PYTHONPATH": os.path.join(REPO, "compiler"), "PYTHONHASHSEED": "0"}
